@@ -124,7 +124,9 @@ class Send(Harness):
                         loop.call_later(RTT + 0.05, confirmation, dest, tag, status_value(V, "fail"))
                         p["conf_t"] = ts + RTT + 0.05
                     elif conf == "other-tag-then-ok":
-                        loop.call_later(RTT + 0.03, confirmation, dest, (tag + 1) % 256, status_value(V, "ok"))
+                        # another request's tag; from v14 on tags are 16 bits wide: one that agrees in the low byte
+                        foreign = (tag + 0x100) if V >= 14 else (tag + 1) % 256
+                        loop.call_later(RTT + 0.03, confirmation, dest, foreign, status_value(V, "ok"))
                         loop.call_later(RTT + 0.05, confirmation, dest, tag, status_value(V, "ok"))
                         p["conf_t"] = ts + RTT + 0.05
                     elif conf == "other-dest-then-ok":
